@@ -130,6 +130,7 @@ func checkC01(w *World, r *Report) {
 	checkR01_4(w, r)
 	checkUseAfterRelease(w, r)
 	checkGlobalMemos(w, r, "R01.6", nil)
+	checkGlobalAliasing(w, r, "R01.8")
 	checkNoAliasedHeaders(w, r, "R01.7")
 }
 
